@@ -228,9 +228,9 @@ func H_C15_concurrent_readers() {
 	x := nondetInt()
 	verifAssume(verifAnd(x >= 0, x < 10))
 	b := NewList(x)
-	l := hListWithSpare(2, nondetIntRange(0, 1))
-	l.Replace(0, x).Replace(1, b)
-	o := NewObject("a", x, "l", l)
+	l := hListWithSpare(3, nondetIntRange(0, 1))
+	l.Replace(0, x).Replace(1, b).Replace(2, "s\n") // every scalar kind that has per-value state worth caching is present
+	o := NewObject("a", x, "l", l, "s", "t")
 	op1 := nondetIntRange(0, hNumReaderOps-1)
 	op2 := op1
 	if nondetIntRange(0, 1) == 1 {
